@@ -140,6 +140,20 @@ PROPS = {
                  "subscriptions with the right method) was rejected for its credentials; (read-only): a statement calling a cr-sqlite function was accepted (status 200) by a read endpoint and the digest compared. Distinct = hash of the case."),
         "assumptions": ["a write admitted by mistake commits within 5-10 ms of the response (the digest is taken after that pause)", "TLS / admin socket are out of scope of the statement"],
     },
+    "C19": {
+        "level": "exploration",
+        "workers": 16,
+        "engine": "E2-sim",
+        "technique": "differential property testing through the real CLI: generated histories on a real source node (local writes plus merged changes of two other real nodes), `corrosion backup`, `corrosion restore` (binary built from /repo's working tree) onto generated destinations, then a real node started on the result; oracle: full crsql_changes relation with author site ids + user tables of source vs restored, restored identity, advertised heads per author, node-local tables and subscription directory. Second sub-campaign: sqlite3_restore::restore over a live WAL database with 1-4 reader PROCESSES; oracle: every successful read is all-old or all-new, final state matches the outcome",
+        "level_text": ("backup: 3-19 transactions (upserts, updates, deletes, key moves over three tables) authored by the source and by two peers whose broadcasts it merged; backup of the live WAL database or of a copy "
+                       "switched to rollback-journal mode; destination absent or the database of another node with 1-7 own transactions; restore with no identity option, --self-actor-id or --actor-id <generated>; "
+                       "a fake member row and a stale subscription directory must not survive. live-restore: destination and source databases of 1-2999 rows (0-599 bytes padding: several hundred pages), "
+                       "0-499 rows committed to the destination's WAL after the readers attached and never checkpointed, readers re-reading the whole table every 0-2 ms from their own processes "
+                       "(SQLite's file locks do not exclude threads of one process), restore started 0-29 ms later"),
+        "level_note": "the reader processes poll, they do not enumerate lock states: a torn read needs a read to fall into the copy window (hundreds of reads per case do); power loss during the copy is not produced; the binary's cold build takes several minutes (cached afterwards)",
+        "rule": ("generated as above. Non-trivial (backup): the source holds changes of at least two authors; (live-restore): the readers saw the old database before and the new one after the restore in the same case. Distinct = hash of the case."),
+        "assumptions": ["`corrosion backup` is given a path whose parent directory exists", "cr-sqlite extension binary as shipped in the repository"],
+    },
     "C20": {
         "level": "exploration",
         "workers": 16,
